@@ -4,7 +4,7 @@ from .. import gen
 from ..gen import Opt, schema_lines, LIST, MULTI, TITLE, NOCASE, dbits
 
 THEOREMS = ["C14_parse_callback", "C14_parse_callback_str", "C14_stored_value", "C14_valid_after_store", "C14_func_args",
-            "C14_failure_stops", "C14_preset"]
+            "C14_failure_stops", "C14_preset", "C14_log_monotone", "C14_step_monotone", "C14_items_in_order"]
 PARTIAL = ("Proved for an arbitrary callback oracle: the parse callback gets exactly the decoded token and its result is what is stored (or the value is "
            "refused); right after a stored value the next invocation is the option's validation callback with a snapshot containing that value, and a "
            "non-zero verdict rejects the parse; function callbacks receive the collected arguments in order; after a rejection no later token changes "
